@@ -1,5 +1,30 @@
 ------------------------------- MODULE JudgeMisc -------------------------------
-EXTENDS JudgeInst
-MiscEvents == {}
-ClausesMisc(e) == [ known_event |-> FALSE ]
+(* Named clauses for validation (C08), text formats (C17-C19), artifacts (C20) and the wire format (C07). *)
+EXTENDS Validate
+MiscEvents == {"validate", "pvalidate", "typed"}
+ClausesValidate(e) ==
+  [ no_panic |-> NoPanic(e),
+    validate_iff |-> Ok(e) <=> ValidateOK(e.in.inst) ]
+ClausesPValidate(e) ==
+  [ no_panic |-> NoPanic(e),
+    parametric_validate_iff |-> Ok(e) <=> PValidateOK(e.in.pinst) ]
+ClausesTyped(e) ==
+  LET raw == e.in.inst  faults == TypedFaults(raw)  dc == HintOnRemoved(raw) IN
+  IF ~NoPanic(e) THEN [ no_panic |-> FALSE ]
+  ELSE IF Ok(e) THEN
+    [ no_panic |-> TRUE,
+      typed_rejects |-> faults = {},
+      typed_content |-> faults = {} => TypedContentOK(raw, e.out.view) ]
+  ELSE
+    LET needDetail == e.out.rule \in {"MissingField", "UnspecifiedEnum"}
+        seen == <<e.out.rule, e.out.path, IF needDetail THEN e.out.detail ELSE <<>> >>
+        hintErr == e.out.rule = "UndefinedConstraintID" IN
+    [ no_panic |-> TRUE,
+      typed_accepts_wellformed |-> faults # {} \/ (dc /\ hintErr),
+      error_rule |-> (dc /\ hintErr) \/ \E f \in faults : f[1] = e.out.rule,
+      error_path |-> (dc /\ hintErr) \/ seen \in faults ]
+ClausesMisc(e) ==
+  CASE e.ev = "validate" -> ClausesValidate(e)
+    [] e.ev = "pvalidate" -> ClausesPValidate(e)
+    [] e.ev = "typed" -> ClausesTyped(e)
 =============================================================================
